@@ -1,3 +1,115 @@
 import KsiVerif.Util.DriverMain
-open KsiVerif
-def main : IO Unit := runDriver (fun i _ => "skip no-model-yet " ++ i)
+import KsiVerif.Model.Async
+/-! Model driver for C13 — protocol in harness/exec_c13.c. -/
+open KsiVerif KsiVerif.Tcp KsiVerif.Async
+
+def parseRecvs (s : String) : List RecvRes :=
+  if s == "-" then [] else (s.splitOn ".").map fun x =>
+    if x == "w" then .wouldBlock else if x == "z" then .closed else if x == "x" then .error
+    else if x == "p" then .data 1000000000 else .data (x.toNat?.getD 0)
+def parseSends (s : String) : List SendRes :=
+  if s == "-" then [] else (s.splitOn ".").map fun x =>
+    if x == "w" then .wouldBlock else if x == "x" then .error else .accept (x.toNat?.getD 1)
+def parsePoll (s : String) : PollRes :=
+  if s == "0" then .timeout else if s == "E" then .error
+  else .ready (s.contains 'I') (s.contains 'O') (s.contains 'H')
+
+structure Sim where
+  a : Async.State
+  now : Nat := 1000
+  poll : PollRes := .ready true true false
+  conn : Bool := true
+  recvs : List RecvRes := [.data 1000000000]
+  sends : List SendRes := []
+  dict : List (Bytes × Pdu) := []
+  implS : List String          -- S tokens of the implementation's output, in order
+  toks : List String := []
+  /-- bookkeeping for the oracle: handles returned so far -/
+  returned : List Nat := []
+  added : Nat := 0
+
+def interpOf (dict : List (Bytes × Pdu)) (b : Bytes) : Pdu :=
+  match dict.find? (·.1 == b) with
+  | some (_, p) => p
+  | none => .bad St.INVALID_FORMAT
+
+def stepSim (rcvT sndT : Nat) (sm : Sim) (tok : String) : Sim :=
+  match tok.splitOn ":" with
+  | ["a"] =>
+    let (a', st, id) := Async.add sm.a sm.now
+    { sm with a := a', toks := sm.toks ++ [if st == 0 then s!"A0:{id}" else s!"A{st}:-"], added := if st == 0 then sm.added + 1 else sm.added }
+  | ["run"] =>
+    let o : Tcp.Opts := ⟨10, sndT, 1000, 1⟩
+    let e : Tcp.Env := ⟨sm.poll, sm.recvs, sm.sends, sm.conn, sm.now⟩
+    let (a', ret) := Async.run (interpOf sm.dict) o rcvT e sm.a
+    let t := match ret with
+      | .none => s!"R0:-:-:-:p{a'.pending}:w{a'.pending + a'.received}"
+      | .conf => s!"R0:-1:4:0:p{a'.pending}:w{a'.pending + a'.received}"
+      | .handle h st er => s!"R0:{h}:{st}:{er}:p{a'.pending}:w{a'.pending + a'.received}"
+    { sm with a := a', toks := sm.toks ++ [t], returned := match ret with | .handle h _ _ => sm.returned ++ [h] | _ => sm.returned }
+  | ["net", p, c, rv, sd] => { sm with poll := parsePoll p, conn := c == "y", recvs := parseRecvs rv, sends := parseSends sd }
+  | "srv" :: kind :: rest =>
+    match sm.implS with
+    | [] => { sm with toks := sm.toks ++ ["S?"] }
+    | stok :: more =>
+      let bytes := (ofHex (stok.drop 1).toString).getD []
+      let k := (rest.head?.bind String.toNat?).getD 0
+      let arg := ((rest.drop 1).head?.bind String.toNat?).getD 0
+      let id := sm.a.ids.getD k 0
+      let meaning : Pdu :=
+        if kind == "ok" then .resp id 0
+        else if kind == "status" then .resp id arg
+        else if kind == "unk" then .resp 0xfffe 0
+        else if kind == "stale" then .resp (id ^^^ 2 ^ 32) 0
+        else if kind == "badmac" then .bad HMAC_MISMATCH
+        else if kind == "errpdu" then .errPdu arg
+        else if kind == "conf" then .conf
+        else .bad St.INVALID_FORMAT
+      { sm with implS := more, dict := sm.dict ++ [(bytes, meaning)],
+                a := { sm.a with tcp := { sm.a.tcp with stream := sm.a.tcp.stream ++ bytes } },
+                toks := sm.toks ++ [stok] }
+  | ["t", n] => { sm with now := sm.now + n.toNat?.getD 0 }
+  | _ => sm
+
+def handle (inp out : String) : String :=
+  match words inp with
+  | ["async", cache, rcvT, sndT, steps] =>
+    match cache.toNat?, rcvT.toNat?, sndT.toNat? with
+    | some c, some r, some sn =>
+      let ow := words out
+      let sm0 : Sim := { a := Async.init c, implS := ow.filter (·.startsWith "S") }
+      let sm := (steps.splitOn ",").foldl (stepSim r sn) sm0
+      let ms := if sm.toks.isEmpty then "-" else " ".intercalate sm.toks
+      -- oracle on the implementation's own output (independent of the model's counters):
+      --  * a handle is never handed back twice, only accepted handles are handed back
+      --  * 'cache full' exactly when outstanding = configured size
+      --  * reported number of waiting handles (pending + received) = accepted − handed back (+1 for a pushed configuration)
+      let rec chk (toks : List String) (accepted : Nat) (back : List String) : Option String :=
+        match toks with
+        | [] => none
+        | t :: rest =>
+          if t.startsWith "A0:" then
+            if accepted - back.length ≥ c then some "accepted-a-request-with-a-full-cache" else chk rest (accepted + 1) back
+          else if t.startsWith "A" then
+            if t.startsWith s!"A{CACHE_FULL}:" && accepted - back.length < c then some "cache-full-with-free-slots"
+            else chk rest accepted back
+          else if t.startsWith "R" then
+            match t.splitOn ":" with
+            | [_, idx, _, _, _, wt] =>
+              let back' := if idx == "-" || idx == "-1" then back else back ++ [idx]
+              if idx != "-" && idx != "-1" && back.contains idx then some "handle-returned-twice"
+              else if idx != "-" && idx != "-1" && (idx.toNat?.getD 9999) ≥ accepted then some "returned-a-handle-never-accepted"
+              else if wt != s!"w{accepted - back'.length}" && wt != s!"w{accepted - back'.length + 1}" then
+                some "waiting-count-differs-from-accepted-minus-returned"     -- (+1: a pushed configuration may be waiting too)
+              else chk rest accepted back'
+            | _ => some "unreadable-run-output"
+          else chk rest accepted back
+      let spec := chk ow 0 []
+      let cls := s!"async:c{min c 9}:a{min sm.added 9}:r{min sm.returned.length 9}"
+      match spec with
+      | some why => s!"specfail {cls} {why}"
+      | none => if ms == out then s!"ok {cls}" else s!"diff {cls} model={ms}"
+    | _, _, _ => "skip bad-async-args"
+  | _ => "skip unknown-op"
+
+def main : IO Unit := runDriver handle
